@@ -165,7 +165,9 @@ class ProbeKernel(ModelMixin, TransitionMixin, TuningMixin):
         if history is None:
             hl, fl = -1, None
         else:
-            h = jnp.asarray(history[self.position_keys[0]], jnp.float32)
+            # the history holds the *tracked* positions: the kernel's own key may have been excluded from tracking
+            own = self.position_keys[0] in history
+            h = jnp.asarray(history[self.position_keys[0]] if own else jax.tree_util.tree_leaves(history)[0], jnp.float32)
             hl = h.shape[0]
             h2 = h.reshape(hl, -1)[:, 0]
             fl = [h2[0], h2[-1], jnp.sum(h2), float(len(history))]
